@@ -22,7 +22,11 @@ func (e *Env) setWidgetHealth(name string, mode int) {
 		gen, _ := toF(obj["metadata"].(map[string]any)["generation"])
 		switch mode {
 		case 0: // healthy
-			obj["status"] = map[string]any{"observedGeneration": int64(gen), "conditions": []any{map[string]any{"type": "Ready", "status": "True", "reason": "Fine"}}}
+			st := map[string]any{"conditions": []any{map[string]any{"type": "Ready", "status": "True", "reason": "Fine"}}}
+			if og, ok := e.healthyOG(int64(gen)); ok {
+				st["observedGeneration"] = og
+			}
+			obj["status"] = st
 		case 1: // unhealthy
 			obj["status"] = map[string]any{"observedGeneration": int64(gen), "conditions": []any{map[string]any{"type": "Ready", "status": "False", "reason": "NotYet"}}}
 		case 2: // Ready, but has not observed its latest generation
@@ -76,8 +80,12 @@ func PropC07(c *vs.Case, f Factory, o RolloutOpts) error {
 	if err != nil {
 		return fmt.Errorf("harness: %v", err)
 	}
+	if !o.Small {
+		env.OGStyle = c.Weighted(5, 1, 1, 1)
+		c.Class("observedGeneration-style-%d", env.OGStyle)
+	}
 	var log []string
-	c.Describe(func() any { return map[string]any{"scenario": scn, "steps": log} })
+	c.Describe(func() any { return map[string]any{"scenario": scn, "steps": log, "ogStyle": env.OGStyle} })
 	sawTwoRevs := false
 	judged := func() error {
 		env.W.SyncAll()
@@ -162,8 +170,10 @@ func PropC08(c *vs.Case, f Factory, o RolloutOpts) error {
 	if err != nil {
 		return fmt.Errorf("harness: %v", err)
 	}
+	env.OGStyle = c.Weighted(5, 1, 1, 1)
+	c.Class("observedGeneration-style-%d", env.OGStyle)
 	var log []string
-	c.Describe(func() any { return map[string]any{"scenario": scn, "steps": log} })
+	c.Describe(func() any { return map[string]any{"scenario": scn, "steps": log, "ogStyle": env.OGStyle} })
 	fairSync := func() (*SyncTrace, error) {
 		env.MakeHealthy()
 		env.W.SyncAll()
